@@ -167,6 +167,10 @@ func (o *C08) Check(x *h.Exec, ev *h.Event) {
 					}
 					name := it.Attr.Name
 					if (cnt && name == "count") || (fe && name == "for_each") {
+						// the extension attributes: no fit claim (any), but what is
+						// offered inside them must still be declared, visible and not
+						// the attribute itself (count.index inside count)
+						attrs[it.ID] = ainfo{mc, &world.AttrSpec{Name: name, Opt: true, Cons: &world.ConsSpec{K: "any", Type: "any"}}}
 						continue
 					}
 					as := mc.Body.Attr(name)
@@ -312,7 +316,20 @@ func (o *C08) Check(x *h.Exec, ev *h.Event) {
 								return
 							}
 							if !notSelfAttr {
-								x.Report("cyclic-reference", "completion", "", fmt.Sprintf("candidate %q at byte %d is the attribute being edited itself", cd.Label, off), &q)
+								// narrower fingerprint for one recorded family: the attribute's
+								// value is a collection and another written element of it fits
+								// (the library offers a parent whenever a nested declaration matches)
+								shape := ""
+								for _, ti := range tis {
+									for _, nt := range ti.t.NestedTargets {
+										if len(nt.Addr) > 0 && nt.RangePtr != nil && nt.RangePtr.Start.Byte >= n.Value.Start && nt.RangePtr.End.Byte <= n.Value.End {
+											if _, isIdx := nt.Addr[len(nt.Addr)-1].(lang.IndexStep); isIdx {
+												shape = "sibling-element"
+											}
+										}
+									}
+								}
+								x.Report("cyclic-reference", "completion", shape, fmt.Sprintf("candidate %q at byte %d is the attribute being edited itself", cd.Label, off), &q)
 								return
 							}
 							if direct && len(leaves) > 0 && ai.as.Cons.K != "oneof" {
@@ -330,7 +347,7 @@ func (o *C08) Check(x *h.Exec, ev *h.Event) {
 								// round trip for declarations that fit themselves
 								// (not for dependency-key attributes: changing their value
 								// changes the schema in force, the constraint included)
-								if ci < 3 && off == n.Value.Start && validTraversal.MatchString(cd.Label) && !isBlockLocalRoot(rootOf(cd.Label)) && !ai.as.DepKey && !keyAttrOfAncestors(ai.mc, n.Item.Attr.Name) {
+								if ci < 3 && off == n.Value.Start && validTraversal.MatchString(cd.Label) && !isBlockLocalRoot(rootOf(cd.Label)) && !ai.as.DepKey && !keyAttrOfAncestors(ai.mc, n.Item.Attr.Name) && !(n.Item.Attr.Name == "count" || n.Item.Attr.Name == "for_each") {
 									for _, ti := range tis {
 										if !ti.local && ti.t.RangePtr != nil && targetFits(reference.Target{Type: ti.t.Type, ScopeId: ti.t.ScopeId}, leaves, 99) {
 											if o.roundTrip(x, pi, f, cd, ti.t, q) {
